@@ -83,7 +83,8 @@ def run(ctx, res):
         kind = rng.choice(list(kinds))
         v = "".join(rng.choice(val_alpha) for _ in range(rng.choice((0, 1, 3, 6, 12))))
         casesA.append((rng.choice(names), d, kind, v))
-    casesA = [("URL", [["A", "x\\"]], "uri", "p;Q=r:z"), ("SUMMARY", [["A", "\\"], ["B", "x"]], "text", "v")] + casesA
+    casesA = [("URL", [], "uri", "\ufeffhttp://x"), ("SUMMARY", [["CN", "\ufeffn"]], "text", "\ufeff"),
+              ("URL", [["A", "x\\"]], "uri", "p;Q=r:z"), ("SUMMARY", [["A", "\\"], ["B", "x"]], "text", "v")] + casesA
     reqs, rows = [], []
     for name, d, kind, v in casesA:
         res.dist("A:" + kind)
